@@ -2,7 +2,7 @@
     and the model computes on them what the theorems say (evaluated by the kernel, vm_compute). *)
 From IsoTp Require Import Base.Prelude Model.Micro Spec.ConfigSpec Spec.Segment Spec.Stream
   Proofs.TxP Proofs.CoopP Proofs.FcPosP Proofs.RxP Proofs.OnceP Proofs.PacingP Proofs.JustifiedP Proofs.LimP Proofs.LazyRunP
-  Model.Joint Spec.AddrSpec Proofs.AddressP Proofs.WireP Proofs.JointP Proofs.JointProcP.
+  Model.Joint Spec.AddrSpec Proofs.AddressP Proofs.WireP Proofs.JointP Proofs.JointProcP Proofs.LimWinP.
 
 Definition ex_params (bs : Z) : params :=
   {| p_stmin := 0; p_blocksize := bs; p_override_stmin_ns := None; p_tbs_ns := 1000000000; p_tcr_ns := 1000000000;
@@ -86,3 +86,26 @@ Example ex_joint :
   sent_of SA tr = [ex_payload; [1; 2; 3]] /\ recv_of SB tr = [ex_payload] /\ rx_queue (nB n) = [[1; 2; 3]] /\
   sent_of SB tr = [[9;8;7;6;5;4;3;2;1;0]] /\ recv_of SA tr = [] /\ rx_queue (nA n) = [[9;8;7;6;5;4;3;2;1;0]].
 Proof. vm_compute. repeat split; reflexivity. Qed.
+
+(** the hypotheses of C15_sliding_window are met and the log is not empty: a budget of two 8-byte frames
+    per 200 ms window; three Single Frames queued; two leave at once, the third is held until the window
+    has slid; log (instant, bits) of the emissions and the bits still counted at the end *)
+Definition ex_lim_params : params :=
+  {| p_stmin := 0; p_blocksize := 8; p_override_stmin_ns := None; p_tbs_ns := 1000000000; p_tcr_ns := 1000000000;
+     p_tx_padding := None; p_wftmax := 0; p_tx_dl := 8; p_tx_min_len := None; p_max_frame_size := 4095;
+     p_can_fd := false; p_brs := false; p_default_tat := Physical; p_lim_enable := true;
+     p_lim_bn := 128; p_lim_bd := 1; p_lim_window_ns := 200000000; p_listen := false |}.
+Definition ex_cl : cfg := {| c_p := ex_lim_params; c_txa := ex_addr 0x123 0x456; c_rxa := ex_addr 0x123 0x456 |}.
+Definition ex_lim_run : list micro :=
+  [MSend (list_gen [1;2;3;4;5;6]) 6 None; MSend (list_gen [1;2;3;4;5;6]) 6 None; MSend (list_gen [1;2;3;4;5;6]) 6 None;
+   MLim; MTx; MTx; MTx; MTick 100000000; MLim; MTx; MTick 100000001; MLim; MTx].
+
+Example ex_window : params_ok (c_p ex_cl) /\ Forall tick_ok ex_lim_run /\
+  grunE ex_cl (init_layer ex_cl 0) [] ex_lim_run = [(0, 64); (0, 64); (200000001, 64)] /\
+  log_sum 5000001 (grunE ex_cl (init_layer ex_cl 0) [] ex_lim_run) = 64.
+Proof.
+  split; [unfold params_ok, ex_cl, ex_lim_params, LL_SIZES, MIN_LENS; cbn;
+          repeat split; try lia; try (intros ? H; discriminate); try (left; reflexivity); try congruence; try discriminate|].
+  split; [unfold ex_lim_run; repeat (constructor; [cbn; try exact I; lia|]); constructor|].
+  vm_compute. split; reflexivity.
+Qed.
